@@ -2,6 +2,7 @@ package main
 
 import (
 	"go/token"
+	"go/types"
 	"strings"
 	"unicode"
 
@@ -26,6 +27,7 @@ func runC19(c *Ctx) {
 	c.rule("skip-matches-width", "after a separator the next word starts at key + 1 for an ASCII separator constant, or key + utf8.RuneLen(separator) for the parameterised decoder; at an upper-case boundary it starts at the key itself", 4)
 	c.rule("initialism-table", "the initialism table consists of non-empty, upper-case constants assigned once, and every scan of it is complete (no early exit that depends on the table's order)", 2)
 	c.rule("initialism-longest", "wherever a word is cut after a table entry (s[len(x):]) the entry is the longest candidate: candidates come sorted by descending length and are taken from the front (or the scan is first-match over a table in which no entry is preceded by a proper prefix of it); the recursive split backs off to shorter candidates", 3)
+	c.rule("no-text-dropped", "in every decoder loop the word boundary (the index the next word starts at) only advances on paths that have emitted the pending text s[boundary:key], or on which boundary < key is false (nothing pending)", 5)
 	c.rule("upper-words-extracted", "in the Go-identifier decoder a word is lower-cased whole only under word != strings.ToUpper(word); all-upper-case words go through the initialism extractor", 2)
 
 	w := c.W
@@ -211,6 +213,13 @@ func runC19(c *Ctx) {
 
 	// ---- initialism-table / initialism-longest ---------------------------------------------------
 	c19Initialisms(c, pkg)
+
+	// ---- no-text-dropped ------------------------------------------------------------------------------
+	for _, dn := range []string{"decodeGoCamelCase", "decodeCamelCase", "decodeLowerCaseWithSplitChar", "DecodeUpperSnakeCase", "DecodeCasePreservingSnakeCase"} {
+		if f := fn(dn); f != nil {
+			c19NoTextDropped(c, f)
+		}
+	}
 
 	// ---- upper-words-extracted --------------------------------------------------------------------
 	if f := fn("decodeGoCamelCase"); f != nil {
@@ -517,4 +526,121 @@ func c19Boundary(c *Ctx, f *ssa.Function) {
 		walk(e, lb.Block().Preds[ei])
 	}
 	c.check(bad == "", "skip-matches-width", name, lb.Pos(), "word starts are 0, the key of an upper-case rune, key+1 after an ASCII separator, or key+RuneLen(separator)", bad)
+}
+
+// c19NoTextDropped: the loop-carried start-of-word index of a decoder is only
+// advanced after the pending text was appended, or when nothing is pending.
+func c19NoTextDropped(c *Ctx, f *ssa.Function) {
+	name := relName(f)
+	var str ssa.Value
+	for _, p := range f.Params {
+		if b, ok := p.Type().Underlying().(*types.Basic); ok && b.Kind() == types.String {
+			str = p // the last string parameter is the decoded text
+		}
+	}
+	n := 0
+	for _, hb := range f.Blocks {
+		if !strings.HasPrefix(hb.Comment, "rangeiter.loop") {
+			continue
+		}
+		for _, i := range hb.Instrs {
+			p, ok := i.(*ssa.Phi)
+			if !ok {
+				break
+			}
+			if b, ok := p.Type().Underlying().(*types.Basic); !ok || b.Kind() != types.Int {
+				continue
+			}
+			// used as the low bound of a slice of the text
+			isBoundary := false
+			var emits = map[*ssa.BasicBlock]bool{}
+			for _, r := range *p.Referrers() {
+				sl, ok := r.(*ssa.Slice)
+				if !ok || sl.Low != ssa.Value(p) || !sameValue(sl.X, str) {
+					continue
+				}
+				isBoundary = true
+				// blocks in which (something derived from) that slice is appended
+				var walk func(v ssa.Value, d int)
+				walk = func(v ssa.Value, d int) {
+					if d > 4 {
+						return
+					}
+					for _, u := range *v.Referrers() {
+						switch x := u.(type) {
+						case *ssa.Call:
+							if calleeFullName(x) == "builtin.append" {
+								emits[x.Block()] = true
+							} else if x.Type() != nil {
+								walk(x, d+1)
+							}
+						case *ssa.Store:
+							if ia, ok := x.Addr.(*ssa.IndexAddr); ok {
+								if a, ok := ia.X.(*ssa.Alloc); ok {
+									for _, rr := range *a.Referrers() {
+										if s2, ok := rr.(*ssa.Slice); ok {
+											walk(s2, d+1)
+										}
+									}
+								}
+							}
+						}
+					}
+				}
+				walk(sl, 0)
+			}
+			if !isBoundary {
+				continue
+			}
+			// the range key
+			var key ssa.Value
+			var body *ssa.BasicBlock
+			for _, s := range hb.Succs {
+				if strings.HasPrefix(s.Comment, "rangeiter.body") {
+					body = s
+				}
+			}
+			if body == nil {
+				continue
+			}
+			for _, bi := range body.Instrs {
+				if ex, ok := bi.(*ssa.Extract); ok && ex.Index == 1 {
+					key = ex
+				}
+			}
+			pb := &predBuilder{name: func(v ssa.Value) string {
+				if b, ok := v.(*ssa.BinOp); ok && key != nil {
+					if b.Op == token.LSS && b.X == ssa.Value(p) && b.Y == key || b.Op == token.GTR && b.X == key && b.Y == ssa.Value(p) {
+						return "pending"
+					}
+				}
+				return ""
+			}}
+			for ei, e := range p.Edges {
+				pred := hb.Preds[ei]
+				if e == ssa.Value(p) || !hb.Dominates(pred) {
+					continue
+				}
+				n++
+				g := pb.pathCondAvoid(body, pred, emits)
+				fb, fi := map[string]bool{}, map[string]bool{}
+				atomsOf(g, fb, fi)
+				_, counter := forAll(g, nil, func(ev env, fv bool) bool { return !fv || fb["pending"] && !ev.B["pending"] })
+				pos := token.NoPos
+				for _, pi := range pred.Instrs {
+					if pi.Pos().IsValid() {
+						pos = pi.Pos()
+					}
+				}
+				if !pos.IsValid() {
+					pos = p.Pos()
+				}
+				c.check(counter == "", "no-text-dropped", name+"#advance#"+itoa(n), pos, "the boundary advances to "+canon(e)+" only after s[boundary:key] was appended or when boundary < key is false",
+					"the word boundary advances to "+canon(e)+" on a path that has not emitted the pending text s[boundary:key] (those runes are lost from the decoded words): "+counter)
+			}
+		}
+	}
+	if n == 0 {
+		c.undecided("no-text-dropped", name, f.Pos(), "no loop-carried word boundary found in this decoder")
+	}
 }
